@@ -461,3 +461,25 @@ def add_sync_memory(rng, d, name='smem'):
     d.ops.append('memwr')
     d.mems.append(m)
     return m
+
+
+def rebind(d, new_block):
+    """the same design record for a block derived from d.block by copy_block (wires found again by name,
+    memories by id): returns a new Design; regmap / memmap keyed by the old objects are translated with .remap"""
+    n = Design(new_block)
+    byname = new_block.wirevector_by_name
+    n.inputs = [byname[w.name] for w in d.inputs]
+    n.outputs = [byname[w.name] for w in d.outputs]
+    n.regs = [byname[w.name] for w in d.regs]
+    mems = {}
+    for net in new_block.logic:
+        if net.op in 'm@':
+            mems[net.op_param[1].id] = net.op_param[1]
+    n.mems = [mems[m.id] for m in d.mems if m.id in mems]
+    n.roms = [mems[m.id] for m in d.roms if m.id in mems]
+    n.ops = list(d.ops) + ['copy_block']
+    n.dangling = [byname[w.name] for w in getattr(d, 'dangling', []) if w.name in byname]
+    n.asserts = []
+    n.remap_reg = {r: byname[r.name] for r in d.regs}
+    n.remap_mem = {m: mems[m.id] for m in d.mems if m.id in mems}
+    return n
